@@ -255,6 +255,16 @@ fn mutate(g: &G, op: u8, s: u64) -> G {
                     p.ext.insert(at, v);
                 }
             }
+            6 if pick(4, 3) == 0 => {
+                // a hole whose VERTICES are all strictly inside a concave shell while one of its edges cuts the reflex corner
+                // (leaves the shell and comes back): an L-shaped shell, the hole's long edge from (1 3) to (5 1) crosses the
+                // shell edges at (2 2.5) and (3 2); in one of four orientations of the template, at a varying place
+                let (ox, oy) = (pick(5, 4) as i64 * 2, pick(5, 5) as i64 * 2);
+                let t = pick(4, 6);
+                let f = |c: (i64, i64)| { let c = match t { 0 => c, 1 => (6 - c.0, c.1), 2 => (c.0, 4 - c.1), _ => (6 - c.0, 4 - c.1) }; (c.0 + ox, c.1 + oy) };
+                p.ext = [(0, 0), (6, 0), (6, 2), (2, 2), (2, 4), (0, 4), (0, 0)].iter().map(|c| f(*c)).collect();
+                p.holes = vec![[(1, 3), (5, 1), (1, 1), (1, 3)].iter().map(|c| f(*c)).collect()];
+            }
             5 | 6 => {
                 // move a hole (or a new small hole) outside / across the shell
                 let (x0, y0, x1, y1) = ring_bbox(&p.ext);
@@ -403,6 +413,12 @@ fn mutate(g: &G, op: u8, s: u64) -> G {
                 polys.push(Poly::new(vec![v, (v.0 + d.0 * 2, v.1 + d.1 * 2), (v.0 + d.0 * 2 - d.1, v.1 + d.1 * 2 + d.0), v], vec![]));
             }
             _ => {}
+        }
+        // (the added member comes last; half of the time it is moved to the front: the defects are symmetric, the order in
+        // which members are related is not)
+        if (12..=17).contains(&op) && polys.len() >= 2 && pick(2, 6) == 0 {
+            let last = polys.pop().unwrap();
+            polys.insert(0, last);
         }
         return G::MultiPolygon(polys);
     }
